@@ -59,15 +59,59 @@ def gen_run(rng, words, maxparts=7):
     return ' '.join(parts), total
 
 
+BOUNDARY_M = [1, 2, 11, 12, 13, 29, 30, 31, 59, 60, 61, 364, 365, 366, 10**6]
+AS_COUNTS = [0, 1, 2, 3, 6, 7, 8, 13, 14, 23, 24, 25, 29, 30, 31, 59, 60, 61, 89, 90, 100, 167, 168, 169, 364, 365, 366, 1000, 1439, 1440, 1441, 10000]
+
+
+def systematic_cases(langs, shard, nshards):
+    k = 0
+    for lang in langs:
+        words = lex.duration_words(lang)
+        conv = [x for x in lex.word_group(lang, 'conversion_group') if x in ('as', 'to', 'in', 'into')] if lex.word_group(lang, 'conversion_group') else []
+        if 'second' not in words:
+            continue
+        for u in ORDER:
+            for m in BOUNDARY_M:
+                for delta in (-1, 0, 1):
+                    k += 1
+                    if k % nshards != shard:
+                        continue
+                    n = m * LEN[u] + delta
+                    yield (lang, '%d %s' % (n, words['second'][-1]), 'run', n)
+        for src in ORDER:
+            if src not in words:
+                continue
+            for tgt in ('second', 'minute', 'hour', 'day', 'week'):
+                if not conv or tgt not in words:
+                    continue
+                for c in AS_COUNTS:
+                    k += 1
+                    if k % nshards != shard:
+                        continue
+                    secs = part_seconds(c, src)
+                    yield (lang, '%d %s %s %s' % (c, words[src][-1], conv[k % len(conv)], words[tgt][-1]), 'as-' + tgt, (secs // LEN[tgt]) * LEN[tgt])
+
+
 def run_shard(ctx):
     rng = ctx.rng
     res = ctx.res
     drv = ctx.driver(rw=True)
     langs = [l for l in lex.languages() if lex.duration_words(l)]
     cfg = mon.cfg_with()
+    systematic = systematic_cases(langs, ctx.shard, ctx.nshards)
     while not ctx.out_of_time():
         items, meta = [], []
         for _ in range(150):
+            e = next(systematic, None) if rng.random() < 0.5 else None
+            if e is not None:
+                # systematic part: every carry boundary m*len(U)+{-1,0,1} written in seconds, and every (source unit, target unit,
+                # count) of the 'as' flooring grid, in every language
+                lang, text, cls, want = e
+                res.count('systematic_cases')
+                res.cover('systematic case', '%s|%s' % (lang, text))
+                items.append((lang, text))
+                meta.append((lang, text, cls, want))
+                continue
             lang = rng.choice(langs)
             words = lex.duration_words(lang)
             conv = lex.word_group(lang, 'conversion_group')
